@@ -126,7 +126,9 @@ sx_make_symboln(const char *s, size_t len)
     if (node->data.symbol == NULL) {
         sxoom(__FILE__, __LINE__);
     }
-    strlcpy(node->data.symbol, s, n);
+    /* s is not necessarily NUL terminated: Copy exactly len octets, the
+     * terminator is already in place courtesy of calloc(). */
+    memcpy(node->data.symbol, s, len);
     return node;
 }
 
